@@ -4,4 +4,4 @@ Require Extraction.
 Require Import ExtrOcamlBasic.
 Require Import PV.Base.Str PV.Model.WF PV.Model.Pos PV.Spec.CMBlock PV.Spec.RuleSpec.
 Extraction Language OCaml.
-Extraction "pvmodel.ml" stream_ok doc_pos_ok doc_monotone CMBlock.html CMBlock.in_F RuleSpec.run_rules.
+Extraction "pvmodel.ml" stream_ok doc_pos_ok doc_monotone CMBlock.html CMBlock.in_F RuleSpec.run_rules RuleSpec.leaf_positions.
